@@ -77,7 +77,10 @@ class StructParam(Parameter):
         self.updateEnable = {}
         if paramdict:
             kwds['paramdict'] = paramdict
-        super().__init__(description, datatype, readonly=readonly, **kwds)
+            # not on Parameter.copy(): there the default of the readonly argument would
+            # override the declared value
+            kwds['readonly'] = readonly
+        super().__init__(description, datatype, **kwds)
 
     def __set_name__(self, owner, name):
         # names of access methods of structed param (e.g. ctrlpars)
@@ -226,8 +229,8 @@ class FloatEnumParam(Parameter):
     def __init__(self, description=None, labels=None, unit='',
                  *, datatype=None, readonly=False, **kwds):
         if labels is None:
-            # called on Parameter.copy()
-            super().__init__(description, datatype, readonly=readonly, **kwds)
+            # called on Parameter.copy(): do not pass the default of the readonly argument
+            super().__init__(description, datatype, **kwds)
             return
         if isinstance(labels, DataType):
             raise ProgrammingError('second argument must be a list of labels, not a datatype')
